@@ -155,8 +155,22 @@ def starts(rng):
     out.append(('Face3D.from_rectangle', lambda: Face3D.from_rectangle(fw, fh, fpl)))
     seg = Bd.make(rng, 'LineSegment3D'); ez = G.dy(rng.uniform(1, 9))
     out.append(('Face3D.from_extrusion', lambda: Face3D.from_extrusion(seg, V3((0.0, 0.0, ez)))))
-    out.append(('Face3D.mesh_grid', lambda: Face3D.from_dict(f0d).mesh_grid(2.0, 2.0, 0, False)))
-    out[-1][1].witness = {'face': f0d, 'grid': [2.0, 2.0, 0, False]}
+    # grid mesh of a face: plain, or lifted off the face and flipped (all of its per-face data is pre-seeded by the factory)
+    gext = max(f0.max.x - f0.min.x, f0.max.y - f0.min.y, f0.max.z - f0.min.z)
+    gcell = G.dy(gext / 5.0)
+    for div in (5.0, 9.0, 15.0, 31.0):
+        try:
+            Face3D.from_dict(f0d).mesh_grid(G.dy(gext / div), G.dy(gext / div), 0, False)
+            gcell = G.dy(gext / div)
+            break
+        except AssertionError:
+            continue
+    gpar = [gcell, gcell, 0, False]
+    out.append(('Face3D.mesh_grid', lambda: Face3D.from_dict(f0d).mesh_grid(*gpar)))
+    out[-1][1].witness = {'face': f0d, 'grid': gpar}
+    gpar2 = [gcell, gcell, G.dy(rng.uniform(0.1, 1)), True]
+    out.append(('Face3D.mesh_grid', lambda: Face3D.from_dict(f0d).mesh_grid(*gpar2)))
+    out[-1][1].witness = {'face': f0d, 'grid': gpar2}
     bw, bd_, bh, bpl = G.dy(rng.uniform(1, 9)), G.dy(rng.uniform(1, 9)), G.dy(rng.uniform(1, 9)), Bd.plane(rng)
     out.append(('Polyface3D.from_box', lambda: Polyface3D.from_box(bw, bd_, bh, bpl)))
     f4d = Bd.face3d(rng, n=4).to_dict(); oh = G.dy(rng.uniform(1, 9))
